@@ -57,6 +57,9 @@ theorem getD_udpL4_other (U : List UInt8) (ulen csum k : Nat) (hU : U.length = 8
 def ipWritten (isV4 : Bool) (j : Nat) : Prop :=
   if isV4 then j = 2 ∨ j = 3 ∨ j = 4 ∨ j = 5 ∨ j = 10 ∨ j = 11 else j = 4 ∨ j = 5
 
+instance (isV4 : Bool) (j : Nat) : Decidable (ipWritten isV4 j) := by
+  unfold ipWritten; infer_instance
+
 theorem X_getD (pkt : List UInt8) (hdrLen cs j : Nat) (hj : j < cs) (hcs : cs ≤ hdrLen) :
     ((pkt.take hdrLen).take cs).getD j 0 = pkt.getD j 0 := by
   rw [getD_take _ _ _ hj, getD_take _ _ _ (by omega)]
